@@ -271,7 +271,8 @@ class C04(Check):
     def crash_finding(self, job, r, stats):
         cls = simdrv.classify_crash(r)
         if cls == "timeout":
-            stats["timeouts"] += 1
+            stats["timeouts"] += 1  # inconclusive: termination is C09's subject
+            return
         stats["crashes"] += 1
         key = {"clause": "crash_" + cls, "flavour": job["flavour"]}
         self.add_finding(key, "worker died (%s) running a C04 program in flavour %s: %s" % (cls, job["flavour"], simdrv.crash_summary(r)),
